@@ -58,7 +58,7 @@ impl<S> CipherStream<S, Aes128Cfb8Enc, Aes128Cfb8Dec> {
 impl<S, E, D> AsyncWrite for CipherStream<S, E, D>
 where
     S: AsyncWrite + Unpin,
-    E: BlockEncryptMut + Unpin,
+    E: BlockEncryptMut + Clone + Unpin,
     D: BlockDecryptMut + Unpin,
 {
     fn poll_write(
@@ -73,15 +73,32 @@ where
             return Pin::new(&mut self_mut.inner).poll_write(cx, buf);
         };
 
-        // encrypt buffer
-        let mut buf = buf.to_vec();
-        for chunk in buf.chunks_mut(Aes128Cfb8Enc::block_size()) {
+        // encrypt the buffer with a copy of the cipher state, the real state may only advance by the
+        // bytes the inner stream actually accepts (it may be pending or accept just a prefix)
+        let mut cipher = enc.clone();
+        let mut encrypted = buf.to_vec();
+        for chunk in encrypted.chunks_mut(Aes128Cfb8Enc::block_size()) {
             let gen_arr = GenericArray::from_mut_slice(chunk);
-            enc.encrypt_block_mut(gen_arr);
+            cipher.encrypt_block_mut(gen_arr);
         }
 
         // pass to inner
-        Pin::new(&mut self_mut.inner).poll_write(cx, &buf)
+        let poll_result = Pin::new(&mut self_mut.inner).poll_write(cx, &encrypted);
+
+        // commit the keystream for exactly the accepted bytes
+        if let Poll::Ready(Ok(written)) = poll_result {
+            if written == buf.len() {
+                *enc = cipher;
+            } else {
+                let mut accepted = buf[..written.min(buf.len())].to_vec();
+                for chunk in accepted.chunks_mut(Aes128Cfb8Enc::block_size()) {
+                    let gen_arr = GenericArray::from_mut_slice(chunk);
+                    enc.encrypt_block_mut(gen_arr);
+                }
+            }
+        }
+
+        poll_result
     }
 
     fn poll_flush(self: Pin<&mut Self>, cx: &mut Context<'_>) -> Poll<Result<(), std::io::Error>> {
